@@ -18,7 +18,7 @@ ahdr = '''(* %s -- the property's anchored source (vedirectapi/registerApi.go) t
    statements, `exact` and Print Assumptions. *)
 From Coq Require Import QArith.
 From GV Require Import Vedirect.DrvSem Gen.DrvImpl Vedirect.DrvRefine Api.ApiSem Gen.ApiImpl Api.ApiRefine
-     Api.ApiRefineTables Api.ApiProps.
+     Api.ApiRefineTables Api.ApiProps Api.ApiValueFacts.
 Import ListNotations.
 Local Open Scope Z_scope.
 
@@ -279,12 +279,32 @@ Theorem %s_api_NewRegisterApi : forall c v hist cn,
 Proof. exact go_NewRegisterApi_refines. Qed.
 Print Assumptions %s_api_NewRegisterApi.
 '''
+A['comma'] = '''(* THE RENDERING CLAUSE of the property on the translated source: for every field-list type of the tables,
+   every raw value and EVERY order in which `range` may visit the field map (every permutation is a
+   shuffle: shuffle_surjective), CommaString names exactly the set fields, each once, by ascending index --
+   the model's fl_render -- and is therefore identical every time it is produced *)
+Theorem %s_api_CommaString : forall f r raw ord s, In f obs_fieldlists -> fl_of (r_factory r) = Some f ->
+  go_CommaString (mkFlv r (fl_fields (f_map f) raw)) ord s
+  = (DVal (list_byte_of_string (fl_render (f_map f) raw)), s).
+Proof. exact go_CommaString_spec. Qed.
+Print Assumptions %s_api_CommaString.
+
+Theorem %s_api_CommaString_deterministic : forall f r raw ord1 ord2 s, In f obs_fieldlists -> fl_of (r_factory r) = Some f ->
+  go_CommaString (mkFlv r (fl_fields (f_map f) raw)) ord1 s = go_CommaString (mkFlv r (fl_fields (f_map f) raw)) ord2 s.
+Proof. exact go_CommaString_deterministic. Qed.
+Print Assumptions %s_api_CommaString_deterministic.
+
+Theorem %s_api_every_map_order : forall (l l' : list ((Z * string) * bool)),
+  Sorting.Permutation.Permutation l l' -> exists ks, shuffle ks l = l'.
+Proof. exact (@shuffle_surjective ((Z * string) * bool)). Qed.
+Print Assumptions %s_api_every_map_order.
+'''
 aplan = {
     'C11': ['connect'],
     'C05': ['wrapped'],
     'C09': ['num', 'text', 'enum', 'fl', 'fl_bits'],
     'C10': ['stream'],
-    'C15': ['fl', 'fl_bits'],
+    'C15': ['fl', 'fl_bits', 'comma'],
 }
 rhdr = '''(* %s -- the property's anchored source (veregister/registerList.go, filter.go) translated on every run into
    Gen/RegImpl.v and proved equal to the four-sequence model Tables/RegList.v (tie T-gen).  Only statements,
